@@ -132,8 +132,8 @@ func Argon2(y int, pwd, salt, secret, ad []byte, t, m uint32, p uint32, tagLen u
 	if mp < 8*p {
 		mp = 8 * p
 	}
-	q := mp / p      // columns per lane
-	segLen := q / 4  // blocks per segment
+	q := mp / p     // columns per lane
+	segLen := q / 4 // blocks per segment
 	B := make([][]a2block, p)
 	for i := range B {
 		B[i] = make([]a2block, q)
